@@ -248,6 +248,7 @@ func debugStack() []byte {
 }
 
 func TestTlvShapes(t *testing.T) {
+	defer watchDriver("TestTlvShapes")()
 	w := newTrace("tlv.ndjson")
 	defer w.Close()
 	kit := newSigKit()
